@@ -41,7 +41,7 @@ function build(rng) {
   const kind = rng.pick(KID_KINDS);
   let children = makeKids(b, shape, kind);
   // make identifier children observable
-  if (rng.bool(0.25)) { attrs.push(...makeVSlots(b, rng.pick(['ident', 'objLit']))); feat.push('vslots'); }
+  if (rng.bool(0.25)) { const vf = rng.pick(['importDefault', 'unboundPascal', 'member1'].includes(tf.form) && !tf.fragLike ? ['ident', 'objLit', 'objLitWithDefault'] : ['ident', 'objLit']); attrs.push(...makeVSlots(b, vf)); feat.push(vf === 'objLitWithDefault' ? 'vslotsWithDefault' : 'vslots'); }
   const el = { tag, attrs, children, selfClose: children.length === 0 && tag.kind !== 'fragShort' };
   const ctx = rng.pick(['arrowExpr', 'arrowExpr', 'fnBody', 'classMethod']);
   wrapContext(b, 't0', renderElement(el), ctx);
@@ -60,7 +60,8 @@ function buildModelCase(rng) {
   const m = makeModel(b, h, rng.pick(['ident', 'member', 'index']), h.isComp ? rng.pick(['none', 'ns', 'strSecond', 'computedStatic']) === 'computedStatic' ? 'strSecond' : rng.pick(['none', 'ns', 'strSecond']) : 'none', rng.pick(['none', 'arrayList']), 0);
   if (!m) return null;
   if (h.isComp && m.entrySrc && rng.bool(0.5)) {
-    const m2 = makeModel(b, h, 'ident', 'strSecond', 'none', 1);
+    // the second entry's argument is a string or a computed expression (evaluated once per generated prop key)
+    const m2 = makeModel(b, h, 'ident', rng.bool(0.5) ? 'computedSecond' : 'strSecond', 'none', 1);
     attrs.push({ t: 'models', src: `v-models={[${m.entrySrc}, ${m2.entrySrc}]}`, items: [{ t: 'model', den: m.den }, { t: 'model', den: m2.den }] });
     feat.push('v-models');
   } else attrs.push({ t: 'model', den: m.den, src: m.attrSrc });
@@ -162,6 +163,8 @@ export async function check(group, records) {
       if (oa.join('\n') !== ob.join('\n')) {
         return violated({ ...base, oracle: 'attribute/spread expressions in source order, then children', sig: `C11/creation-order${opts.transformOn && /\bon=|nativeOn=/.test(r.src ?? '') ? '+transformOn' : ''}`, detail: { observed: oa, expected: ob } });
       }
+      // (a v-slots literal with its own `default` next to written children: which one is delivered is not decided here)
+      if (spec.thunks[ti].el.attrs.some((a) => a.t === 'vslots' && a.hasDefault)) return held({ ...base, events: { creation_probe_events: ta.length, ordered_probe_events: oa.length }, shape: short(ta, 120) });
       // 3. slot content: evaluated only when, and each time, the slot is invoked
       const ca = eraseHints(e.A.canon.vnode.children), cb = eraseHints(e.B.canon.vnode.children);
       const d = firstDiff(ca, cb);
